@@ -147,7 +147,7 @@ func Eq(a, b *Term) *Term {
 	if a == b {
 		return TrueT
 	}
-	if a.IsConst() && b.IsConst() && a.Sort.Kind != 'I' {
+	if a.IsConst() && b.IsConst() && a.Op != "rconst" && b.Op != "rconst" {
 		if a.Sort.Kind == 'B' {
 			return BoolConst(a.Op == b.Op)
 		}
